@@ -4,7 +4,7 @@
    (tied to /repo by harness/props/C18*.py on every run). *)
 From PV Require Import Base.Prelude Base.Decimal Wire.Lex Wire.SeqSet Wire.SeqSetProofs
   Wire.Strings Wire.StringsProofs Wire.ModUtf7 Wire.ModUtf7Proofs Wire.CmdLine
-  Wire.CmdLineProofs Wire.Flag Wire.FlagProofs Wire.DateTime Wire.DateTimeProofs
+  Wire.CmdLineProofs Wire.CmdArgsProofs Wire.Flag Wire.FlagProofs Wire.DateTime Wire.DateTimeProofs
   Wire.DateTimeChars.
 
 (* ===================== 1. one value, four spellings ======================= *)
@@ -40,20 +40,36 @@ Theorem C18_sync_literal_requests_continuation : forall p v k,
 Proof. exact astring_lit_needs_cont. Qed.
 Print Assumptions C18_sync_literal_requests_continuation.
 
+(* The same for an argument read with another atom class (ListCommand reads
+   its pattern with the list-mailbox class, which has the wildcards) *)
+Theorem C18_cstring_spelling : forall cls p sp v k rest cs,
+  cls SP = false -> cls DQUOTE = false -> cls LBRACE = false ->
+  spelling_okc cls p sp v = true ->
+  (sp = SpAtom -> head_sat cls rest = false) ->
+  parse_cstring cls p (spell_conts sp v rest cs) (repeat SP k ++ spell_buf sp v rest)
+  = POk (v, spell_raw sp v) rest cs.
+Proof. exact cstring_spelling. Qed.
+Print Assumptions C18_cstring_spelling.
+
 (* The whole path of a command (IMAPConnection.readline with LITERAL+ gluing,
    read_continuation, the re-parse loop, Commands.parse), for the commands
-   whose arguments are astrings / mailboxes: whatever the spelling of each
+   built from astrings, mailboxes, list-mailbox patterns, sequence sets and
+   status attribute lists (LOGIN, DELETE, SUBSCRIBE, UNSUBSCRIBE, CREATE,
+   SELECT, EXAMINE, RENAME, STATUS, LIST, LSUB, COPY, MOVE, the no-argument
+   commands; any table of such shapes): whatever the spelling of each string
    argument, the letter case of the command word [w], the number of spaces
    before the word (kw), before each argument and before the end of the line
    (ke), and the line ending (CRLF / LF), the server consumes exactly the bytes
    of the command ([next], the following pipelined bytes, stays unread), sends
    one continuation request per synchronizing literal, and delivers the command
-   with the upper-cased word and the argument VALUES. *)
-Theorem C18_command_spelling : forall table p tag kw w kinds args ke crlf next vals,
+   with the upper-cased word and the argument VALUES.  [arg_ok] says that a
+   string argument is in a spelling its position admits and that a raw argument
+   (sequence set, attribute list) is a text its parser reads back whole. *)
+Theorem C18_command_spelling : forall table p tag kw w kinds opts args ke crlf next vals,
   tag <> [] -> forallb tag_char tag = true ->
   (1 <= kw)%nat -> w <> [] -> forallb atom_char w = true ->
-  lookup (upper_bytes w) table = Some kinds ->
-  Forall (arg_ok p) args -> interp_all kinds (map sa_val args) = Some vals ->
+  lookup (upper_bytes w) table = Some (kinds, opts) ->
+  Forall2 (arg_ok p) kinds args -> interp_all kinds args = Some vals ->
   read_command table p (cmd_wire tag kw w args ke crlf ++ next)
   = Ok (Cmd tag (upper_bytes w) vals, next, count_sync args).
 Proof. exact command_spelling. Qed.
@@ -62,21 +78,59 @@ Print Assumptions C18_command_spelling.
 (* ... hence two wire forms with the same tag, the same word up to letter
    case and the same argument values are read as the same command *)
 Theorem C18_command_spelling_independent :
-  forall table p tag kinds vals kw1 w1 args1 ke1 crlf1 kw2 w2 args2 ke2 crlf2 next1 next2,
+  forall table p tag kinds opts vals kw1 w1 args1 ke1 crlf1 kw2 w2 args2 ke2 crlf2 next1 next2,
   tag <> [] -> forallb tag_char tag = true ->
   (1 <= kw1)%nat -> w1 <> [] -> forallb atom_char w1 = true ->
   (1 <= kw2)%nat -> w2 <> [] -> forallb atom_char w2 = true ->
   upper_bytes w1 = upper_bytes w2 ->
-  lookup (upper_bytes w1) table = Some kinds ->
-  Forall (arg_ok p) args1 -> Forall (arg_ok p) args2 ->
-  map sa_val args1 = map sa_val args2 ->
-  interp_all kinds (map sa_val args1) = Some vals ->
+  lookup (upper_bytes w1) table = Some (kinds, opts) ->
+  Forall2 (arg_ok p) kinds args1 -> Forall2 (arg_ok p) kinds args2 ->
+  interp_all kinds args1 = Some vals -> interp_all kinds args2 = Some vals ->
   exists c, read_command table p (cmd_wire tag kw1 w1 args1 ke1 crlf1 ++ next1)
             = Ok (c, next1, count_sync args1) /\
             read_command table p (cmd_wire tag kw2 w2 args2 ke2 crlf2 ++ next2)
             = Ok (c, next2, count_sync args2).
 Proof. exact command_spelling_independent. Qed.
 Print Assumptions C18_command_spelling_independent.
+
+(* the raw arguments of the command table meet [arg_ok]: every printed
+   sequence set, every printed non-empty list of status attributes *)
+Theorem C18_raw_seq_ok : forall p s n, wf_seqset s = true -> (1 <= n)%nat ->
+  arg_ok p (ARaw RSeq) (WRaw n (print_seqset s) (VSeq s)).
+Proof. exact raw_seq_ok. Qed.
+Print Assumptions C18_raw_seq_ok.
+
+Theorem C18_raw_attrs_ok : forall p l n, l <> [] -> Forall is_status l -> (1 <= n)%nat ->
+  arg_ok p (ARaw RAttrs) (WRaw n (print_attrs l) (VAttrs l)).
+Proof. exact raw_attrs_ok. Qed.
+Print Assumptions C18_raw_attrs_ok.
+
+Theorem C18_attr_list_roundtrip : forall l k rest, l <> [] -> Forall is_status l ->
+  parse_attr_list (repeat SP k ++ print_attrs l ++ rest) = Ok (l, rest).
+Proof. exact attr_list_roundtrip. Qed.
+Print Assumptions C18_attr_list_roundtrip.
+
+(* two instances on the real command table, hypotheses discharged: STATUS
+   (spelled mailbox + attribute list) and COPY (sequence set + spelled mailbox) *)
+Theorem C18_status_spelling : forall p tag kw w a l n ke crlf next name,
+  tag <> [] -> forallb tag_char tag = true -> (1 <= kw)%nat ->
+  upper_bytes w = w_STATUS -> w <> [] -> forallb atom_char w = true ->
+  arg_ok p AMbox (WStr a) -> mbox_of_bytes (sa_val a) = Some name ->
+  l <> [] -> Forall is_status l -> (1 <= n)%nat ->
+  read_command cmd_table p (cmd_wire tag kw w [WStr a; WRaw n (print_attrs l) (VAttrs l)] ke crlf ++ next)
+  = Ok (Cmd tag w_STATUS [VMbox name; VAttrs l], next, count_sync [WStr a]).
+Proof. exact status_spelling. Qed.
+Print Assumptions C18_status_spelling.
+
+Theorem C18_copy_spelling : forall p tag kw w s n a ke crlf next name,
+  tag <> [] -> forallb tag_char tag = true -> (1 <= kw)%nat ->
+  upper_bytes w = w_COPY -> w <> [] -> forallb atom_char w = true ->
+  wf_seqset s = true -> (1 <= n)%nat ->
+  arg_ok p AMbox (WStr a) -> mbox_of_bytes (sa_val a) = Some name ->
+  read_command cmd_table p (cmd_wire tag kw w [WRaw n (print_seqset s) (VSeq s); WStr a] ke crlf ++ next)
+  = Ok (Cmd tag w_COPY [VSeq s; VMbox name], next, count_sync [WStr a]).
+Proof. exact copy_spelling. Qed.
+Print Assumptions C18_copy_spelling.
 
 (* The atom spelling is admitted for the implementation's astring class, which
    is the RFC's ASTRING-CHAR class minus the closing brace ... *)
